@@ -54,7 +54,7 @@ FACT_TIES = {
     'C01': ['Sxg', 'Mice', 'Cert'], 'C02': ['Sxg', 'Mice', 'Cert'], 'C08': ['Sxg', 'Mice'], 'C09': ['Sxg'],
     'C03': ['Bundle'], 'C04': ['Bundle'], 'C05': ['Bundle'], 'C06': ['Bundle', 'Mice', 'Cert'], 'C07': ['IB'],
     'C10': ['Sxg', 'Bundle', 'Cert', 'Mice', 'IB'], 'C14': ['Mice'], 'C15': ['Mice'], 'C17': ['Cert'],
-    'C18': ['Sxg', 'Bundle', 'Cert', 'IB', 'Mice'], 'C19': ['Sxg', 'Bundle', 'Cert', 'Mice'], 'C20': ['Sxg', 'Bundle', 'Cert', 'IB', 'Mice'],
+    'C18': ['Sxg', 'Bundle', 'Cert', 'IB', 'Mice'], 'C19': ['Sxg', 'Bundle', 'Cert', 'Mice'], 'C20': ['Sxg', 'Bundle', 'Cert', 'IB', 'Mice', 'GenBundle'],
 }
 
 
